@@ -153,9 +153,18 @@ Definition init_state (d : doc) (undo0 : list action) : mstate :=
 (* ---------------------------------------------------------------------------------------------------------- *)
 (* rebuild_usercode: tables and columns follow the schema; objects are reused BY NAME, others are created
    empty; what is not in the schema any more is destroyed. *)
+(* Table._create_or_update_col: an existing Column object is kept (type, default, is_formula, data) and only gets
+   the method compiled from the schema's current formula (update_method). *)
+Definition reuse_col (ci : colinfo) (col : column) : column :=
+  {| c_info := {| ci_type := ci_type (c_info col); ci_default := ci_default (c_info col);
+                  ci_isformula := ci_isformula (c_info col); ci_formula := ci_formula ci;
+                  ci_reverse := ci_reverse (c_info col) |};
+     c_data := c_data col |}.
+
 Definition rebuild_table (scols : gmap name colinfo) (old : option table) : table :=
   {| t_rows := from_option t_rows ∅ old;
-     t_cols := map_imap (fun c ci => Some (default (new_col ci) (from_option t_cols ∅ old !! c))) scols |}.
+     t_cols := map_imap (fun c ci => Some (from_option (reuse_col ci) (new_col ci) (from_option t_cols ∅ old !! c)))
+                        scols |}.
 
 Definition rebuild (d : doc) : doc :=
   {| d_schema := d_schema d;
@@ -245,6 +254,10 @@ Section Steps.
   Definition col_values (tb : table) (cs : list name) (rows : list rowid) : list (name * list val) :=
     omap (fun c => (fun col => (c, map (cget col) rows)) <$> t_cols tb !! c) cs.
 
+  (* column.unset(r) for every column and every removed row: set(r, default) *)
+  Definition unset_values (tb : table) (cs : list name) (rows : list rowid) : list (name * list val) :=
+    omap (fun c => (fun col => (c, map (fun _ => cdefault col) rows)) <$> t_cols tb !! c) cs.
+
   Definition steps_of (d : doc) (a : action) : list mstep :=
     match a with
     | AddRecord t r vals => [MFail]      (* desugared by normalize below before use *)
@@ -269,9 +282,7 @@ Section Steps.
               let undo_cs := filter (fun c => from_option (fun col => negb (all_default col rows')) false
                                                           (t_cols tb !! c) = true) cs in
               map (MDelRow t) rows'
-              ++ concat (map (fun c => match t_cols tb !! c with
-                                       | Some col => map (fun r => MSetCell t c r (cdefault col)) rows'
-                                       | None => [] end) cs)
+              ++ concat (map (cell_steps t rows') (unset_values tb cs rows'))
               ++ [MUndo (BulkAddRecord t rows' (col_values tb undo_cs rows')); MSum (SRemoveRecords t)]
             end
         end
@@ -564,3 +575,19 @@ Definition crash_index (ord : name -> list name) (st : mstate) (es : list event)
        | Some st', Some e => pre + nth_visible (event_steps ord (ms_doc st') e) j 0
        | _, _ => pre
        end.
+
+(* ---------------------------------------------------------------------------------------------------------- *)
+(* The property as a boolean on concrete inputs: crashing the bundle `es` of document d before micro-step k and
+   rolling back does NOT give d back (the rollback raises, or tables / schema / column objects differ). *)
+Definition leaves_trace (ord : name -> list name) (d : doc) (es : list event) (k : nat) : bool :=
+  match run_until_crash ord (init_state d []) es k with
+  | Crashed st _ _ => negb (bool_decide (rollback ord 0 st = Some d))
+  | Finished _ => false
+  end.
+
+(* ... and the rollback itself raises (a replayed undo action fails its assert) *)
+Definition rollback_raises (ord : name -> list name) (d : doc) (es : list event) (k : nat) : bool :=
+  match run_until_crash ord (init_state d []) es k with
+  | Crashed st _ _ => bool_decide (rollback ord 0 st = None)
+  | Finished _ => false
+  end.
